@@ -21,6 +21,7 @@ MulA(v, an, ad) == (v * AbsR(an)) \div ad
 ScaleOK(e) ==
   LET L == Len(e.lanes) IN
   /\ e.outcome = "ok" /\ e.finite
+  /\ e.intact                                                          \* an estimator reads its input: the caller's array is unchanged
   /\ Len(e.s0) = L /\ Len(e.s1) = L /\ Len(e.l1) = L
   /\ e.shape_ok                                                        \* result broadcasts against the input
   /\ \A i \in 1..L :
@@ -32,7 +33,7 @@ ScaleOK(e) ==
 
 ZOK(e) ==
   LET L == Len(e.lanes) IN
-  /\ e.outcome = "ok" /\ e.finite /\ e.shape_ok
+  /\ e.outcome = "ok" /\ e.finite /\ e.shape_ok /\ e.intact
   /\ Len(e.z0) = L /\ Len(e.z1) = L
   /\ \A i \in 1..L :
        /\ Len(e.z0[i]) = Len(e.lanes[i]) /\ Len(e.z1[i]) = Len(e.lanes[i])
